@@ -8,29 +8,11 @@ import heapq
 import logging
 from typing import Union
 
-from happysimulator.core.event import Event
+from happysimulator.core.event import Event, _IndexCounter
 from happysimulator.core.temporal import Instant
 from happysimulator.instrumentation.recorder import NullTraceRecorder, TraceRecorder
 
 logger = logging.getLogger(__name__)
-
-
-class _IndexCounter:
-    """Source of creation indices for events created while this heap's run is active.
-
-    Behaves like ``itertools.count`` for ``__next__`` but exposes the next value so
-    the heap can keep it above the index of every event pushed so far.
-    """
-
-    __slots__ = ("value",)
-
-    def __init__(self, start: int = 0):
-        self.value = start
-
-    def __next__(self) -> int:
-        v = self.value
-        self.value = v + 1
-        return v
 
 
 class EventHeap:
